@@ -62,9 +62,9 @@ EncChecks(r) ==
     /\ IF r.dec.outcome # "ok" THEN Report("rt-outcome", r.dec)
        ELSE /\ ((r.dec.T = r.T /\ Norm(r.T, r.dec.v) = Norm(r.T, r.v)) \/ Report("rt-value", [got |-> r.dec.v, want |-> r.v]))
             /\ (r.dec.consumed = Len(r.bytes) \/ Report("rt-consumed", [consumed |-> r.dec.consumed, len |-> Len(r.bytes)]))
-    /\ LET d == Decode(r.T, r.bytes, r.pos, r.le, r.nfds) IN
-         \/ (d.ok /\ Norm(r.T, d.v) = Norm(r.T, r.v) /\ d.next = Len(r.bytes) + 1)
-         \/ Report("spec-selfcheck", d)       \* the specification's own Decode o Marshal law
+    /\ LET d == Decode(r.T, exp, r.pos, r.le, NumFds(r.T, r.v)) IN   \* the specification's own law: Decode o Marshal = id
+         \/ (d.ok /\ Norm(r.T, d.v) = Norm(r.T, r.v) /\ d.next = Len(exp) + 1)
+         \/ Report("spec-selfcheck", d)
 
 (* --- Dec lines: C03 (accept exactly the valid encodings, denote the right value) --- *)
 DecChecks(r) ==
